@@ -30,6 +30,10 @@ var c03Templates = []string{
 	"f := func(x) { x }",
 	"m := {a: 1, \"b\": [1, 2]}",
 	"s := {1, 2}",
+	"m := {a: 1, \"b\":\n 2}",
+	"s := {1,\n 2}",
+	"x := d.\n b",
+	"switch x {\ncase 1:\n\ta\n}",
 	"l := [1,\n 2,\n 3]",
 	"x := a ? b : c",
 	"a | f | g(1)",
